@@ -16,7 +16,7 @@ pub fn def() -> CheckDef {
         meta: CheckMeta {
             id: "C11",
             level: "fault_enumeration",
-            rule: "generated histories run in a worker process under the LD_PRELOAD shim; for a chosen target commit a dry run counts the I/O calls the commit issues on the database descriptor (every lseek, write, fsync), then one worker per fault is run with that call failing: EIO and ENOSPC for every call, plus for writes 'short write then error' (1, 100, 512 bytes transferred), plus a file-size limit (RLIMIT_FSIZE = current size, SIGXFSZ ignored) so that file extension and writes beyond the limit fail. Oracle in the worker: the faulted commit returns Err (a panic or abort is a failure); immediately afterwards, on the same handle, a reader sees exactly the pre- or the post-transaction state; the independent parser finds the file sound and equal to that state; DB::check passes; 3-6 further generated transactions on the same handle commit and match the model continued from the observed state with every commit verified; after reopen the same. Single faults are enumerated exhaustively per target commit. Non-trivial = fault that fired after at least one write of the commit had succeeded. Distinct = (history, target, fault).",
+            rule: "generated histories run in a worker process under the LD_PRELOAD shim; for a chosen target commit a dry run counts the I/O calls the commit issues on the database descriptor (every lseek, write, fsync), then one worker per fault is run with that call failing: EIO and ENOSPC for every call, plus for writes 'short write then error' (1, 100, 512 bytes transferred), plus a file-size limit (RLIMIT_FSIZE = current size, SIGXFSZ ignored) so that file extension and writes beyond the limit fail. Oracle in the worker: the faulted commit returns Err (a panic or abort is a failure); immediately afterwards, on the same handle, a reader sees exactly the pre- or the post-transaction state; the independent parser finds the file sound and equal to that state; DB::check passes; 3-6 further generated transactions on the same handle commit and match the model continued from the observed state with every commit verified; after reopen the same. Single faults are enumerated exhaustively per target commit; pairs are sampled: a first fault in the target commit and a second one (re-armed) in one of the next three commits on the same handle, each faulted commit judged the same way. Non-trivial = fault that fired after at least one write of the commit had succeeded. Distinct = (history, target, fault).",
             assumptions: &[
                 "faults are injected at the libc boundary (write, lseek64, fsync); fallocate is a raw syscall and is made to fail through RLIMIT_FSIZE instead",
                 "a fault makes that one call fail; the file system otherwise behaves (what was written before the fault stays written)",
@@ -40,6 +40,9 @@ pub struct C11Case {
     /// index (into history.txs) of the transaction whose commit is faulted
     pub target: usize,
     pub fault: Fault,
+    /// second fault of a pair: (index of a later transaction, fault) — armed with the marker ARM2
+    #[serde(default)]
+    pub second: Option<(usize, Fault)>,
 }
 
 #[derive(Serialize, Deserialize, Clone, Debug, Default)]
@@ -48,6 +51,10 @@ pub struct WorkerReport {
     pub observed: String,
     pub failure: Option<Failure>,
     pub after_commits: u64,
+    #[serde(default)]
+    pub commit2: String,
+    #[serde(default)]
+    pub observed2: String,
 }
 
 fn set_fsize_limit(limit: Option<u64>) {
@@ -100,34 +107,85 @@ fn run_worker_inner(case: &C11Case, path: &Path, rep: &mut WorkerReport) -> Resu
             model = work;
         }
     }
+    let (observed, commit, obs) = faulted_commit(&db, cfg, path, &case.history.txs[case.target], case.target, &model, "ARM", &case.fault, &quiet, &mut cs)?;
+    rep.commit = commit;
+    rep.observed = obs;
+    let mut next = case.target + 1;
+    let mut observed = observed;
+    if let Some((t2, f2)) = &case.second {
+        // transactions between the two faulted commits run normally; the second faulted commit's
+        // verification (independent parser = pre or post) covers what they left behind
+        for (ti, spec) in case.history.txs.iter().enumerate().take(*t2).skip(next) {
+            if spec.kind == TxKind::Reopen {
+                continue;
+            }
+            let mut work = observed.clone();
+            let mut at = None;
+            let committed = catch(|| run_tx(&db, spec, false, &mut work, &quiet, &mut cs, &mut at, None)).map_err(Failure::from_panic)?.map_err(|mut f| {
+                f.msg = format!("after the first faulted commit ({}; observed {} state): {}", rep.commit, rep.observed, f.msg);
+                f.at(ti, at)
+            })?;
+            if committed {
+                observed = work;
+            }
+        }
+        let (o2, c2, ob2) = faulted_commit(&db, cfg, path, &case.history.txs[*t2], *t2, &observed, "ARM2", f2, &quiet, &mut cs).map_err(|mut f| {
+            f.msg = format!("second fault, after the first faulted commit ({}; observed {} state): {}", rep.commit, rep.observed, f.msg);
+            f
+        })?;
+        rep.commit2 = c2;
+        rep.observed2 = ob2;
+        observed = o2;
+        next = *t2 + 1;
+    }
+    // further transactions on the same handle, every commit verified, then reopen
+    let rest = HistoryCase { cfg: cfg.clone(), fresh_handles: false, txs: case.history.txs[next..].to_vec() };
+    let mut opts = RunOpts::standard(path.to_path_buf());
+    opts.start_model = Some(observed);
+    opts.keep_file = true;
+    let o = run_history_with(&rest, &opts, Some(db));
+    rep.after_commits = o.stats.commits;
+    o.result.map_err(|mut f| {
+        f.msg = format!("after the faulted commit ({}; observed {} state), continuing on the same handle: {}", rep.commit, rep.observed, f.msg);
+        f.tx += next;
+        f
+    })
+}
+
+
+/// One commit run with a fault armed, then judged: Err (not a panic), the file shows exactly the
+/// pre- or the post-transaction state and is sound, a reader on the same handle agrees, DB::check
+/// passes. Returns the observed state.
+#[allow(clippy::too_many_arguments)]
+fn faulted_commit(db: &jammdb::DB, cfg: &Cfg, path: &Path, spec: &TxSpec, target: usize, model: &MBucket, marker: &str, fault: &Fault, quiet: &RunOpts, cs: &mut CaseStats) -> Result<(MBucket, String, String), Failure> {
+    let commit: String;
+    let observed_s: String;
     let pre = model.clone();
-    let spec = &case.history.txs[case.target];
     let mut work = model.clone();
     let mut at = None;
-    if case.fault == Fault::Fsize {
+    if *fault == Fault::Fsize {
         let len = std::fs::metadata(path).map(|m| m.len()).unwrap_or(0);
         set_fsize_limit(Some(len));
     }
-    mark("ARM");
-    let r = catch(|| run_tx(&db, spec, false, &mut work, &quiet, &mut cs, &mut at, None));
+    mark(marker);
+    let r = catch(|| run_tx(db, spec, false, &mut work, quiet, cs, &mut at, None));
     mark("DISARM");
-    if case.fault == Fault::Fsize {
+    if *fault == Fault::Fsize {
         set_fsize_limit(None);
     }
     let post = work;
     match r {
         Err(p) => {
-            rep.commit = "panic".into();
             let mut f = Failure::from_panic(p);
             f.msg = format!("commit panicked instead of returning an error: {}", f.msg);
-            return Err(f.at(case.target, None));
+            return Err(f.at(target, None));
         }
-        Ok(Ok(_)) => rep.commit = "ok".into(),
+        Ok(Ok(_)) => commit = "ok".into(),
         Ok(Err(f)) => {
             if f.kind != "commit_err" {
-                return Err(f.at(case.target, at));
+                return Err(f.at(target, at));
             }
-            rep.commit = format!("err: {}", f.msg);
+            commit = format!("err: {}", f.msg);
         }
     }
     // same handle: exactly the pre- or the post-transaction state. The independent parser decides
@@ -136,52 +194,43 @@ fn run_worker_inner(case: &C11Case, path: &Path, rep: &mut WorkerReport) -> Resu
     let (bytes, flen) = read_prefix(path, cfg.pagesize)?;
     let fr = fsck::fsck_len(&bytes, cfg.pagesize, flen);
     if !fr.ok() {
-        return Err(Failure::new("fsck", format!("after the faulted commit ({}): file not sound: {}", rep.commit, fr.errors.join("; "))));
+        return Err(Failure::new("fsck", format!("after the faulted commit ({}): file not sound: {}", commit, fr.errors.join("; "))));
     }
     let fd = fr.dump.as_ref().unwrap();
     let observed = if crate::model::diff(&post, fd, &mut vec![], true).is_none() {
-        rep.observed = "post".into();
+        observed_s = "post".into();
         post.clone()
     } else if crate::model::diff(&pre, fd, &mut vec![], true).is_none() {
-        rep.observed = "pre".into();
+        observed_s = "pre".into();
         pre.clone()
     } else {
         let df = crate::model::diff(&pre, fd, &mut vec![], true).unwrap_or_default();
-        return Err(Failure::new("half_applied", format!("after the faulted commit ({}) the file shows neither the pre- nor the post-transaction state: vs pre: {}", rep.commit, df)));
+        return Err(Failure::new("half_applied", format!("after the faulted commit ({}) the file shows neither the pre- nor the post-transaction state: vs pre: {}", commit, df)));
     };
-    let d = dump_db(&db).map_err(|mut f| {
+    let d = dump_db(db).map_err(|mut f| {
         f.msg = format!("reader on the same handle after the faulted commit: {}", f.msg);
         f
     })?;
     if let Some(df) = crate::model::diff(&observed, &d, &mut vec![], false) {
-        return Err(Failure::new("half_applied", format!("after the faulted commit ({}) the file shows the {}-transaction state but a reader on the same handle does not: {}", rep.commit, rep.observed, df)));
+        return Err(Failure::new("half_applied", format!("after the faulted commit ({}) the file shows the {}-transaction state but a reader on the same handle does not: {}", commit, observed_s, df)));
     }
-    if rep.commit == "ok" && post != pre && rep.observed != "post" {
+    if commit == "ok" && post != pre && observed_s != "post" {
         return Err(Failure::new("half_applied", "commit returned Ok but the old state is still the visible one".into()));
     }
     match catch(|| db.check()) {
         Err(p) => return Err(Failure::from_panic(p)),
-        Ok(Err(e)) => return Err(Failure::new("dbcheck", format!("after the faulted commit ({}): DB::check(): {}", rep.commit, e))),
+        Ok(Err(e)) => return Err(Failure::new("dbcheck", format!("after the faulted commit ({}): DB::check(): {}", commit, e))),
         Ok(Ok(())) => {}
     }
-    // further transactions on the same handle, every commit verified, then reopen
-    let rest = HistoryCase { cfg: cfg.clone(), fresh_handles: false, txs: case.history.txs[case.target + 1..].to_vec() };
-    let mut opts = RunOpts::standard(path.to_path_buf());
-    opts.start_model = Some(observed);
-    opts.keep_file = true;
-    let o = run_history_with(&rest, &opts, Some(db));
-    rep.after_commits = o.stats.commits;
-    o.result.map_err(|mut f| {
-        f.msg = format!("after the faulted commit ({}; observed {} state), continuing on the same handle: {}", rep.commit, rep.observed, f.msg);
-        f.tx += case.target + 1;
-        f
-    })
+    Ok((observed, commit, observed_s))
 }
 
 pub struct FaultRun {
     pub report: WorkerReport,
     pub fired: bool,
     pub writes_before_fault: usize,
+    /// the second fault of a pair fired (inside the second faulted commit)
+    pub fired2: bool,
 }
 
 pub fn run_fault(case: &C11Case, dir: &Path) -> Result<FaultRun, Failure> {
@@ -192,6 +241,13 @@ pub fn run_fault(case: &C11Case, dir: &Path) -> Result<FaultRun, Failure> {
             s.push_str(&format!(":short={}", k));
         }
         env.push(("JV_SHIM_FAIL", s));
+    }
+    if let Some((_, Fault::Nth { n, errno, short })) = &case.second {
+        let mut s = format!("{}:{}", n, errno);
+        if let Some(k) = short {
+            s.push_str(&format!(":short={}", k));
+        }
+        env.push(("JV_SHIM_FAIL2", s));
     }
     // reuse the C02 worker runner with a different mode; the case file format differs, so write our own
     let db = dir.join("w.db");
@@ -226,13 +282,19 @@ pub fn run_fault(case: &C11Case, dir: &Path) -> Result<FaultRun, Failure> {
         .and_then(|s| serde_json::from_str(&s).ok())
         .ok_or_else(|| Failure::new("harness_panic", "worker wrote no report".into()))?;
     let mut armed = false;
+    let mut armed2 = false;
     let mut fired = false;
+    let mut fired2 = false;
     let mut writes = 0usize;
     let mut writes_before = 0usize;
     for e in &evs {
         match e {
             Ev::Marker(m) if m == "ARM" => armed = true,
-            Ev::Marker(m) if m == "DISARM" => armed = false,
+            Ev::Marker(m) if m == "ARM2" => armed2 = true,
+            Ev::Marker(m) if m == "DISARM" => {
+                armed = false;
+                armed2 = false;
+            }
             Ev::Write { result, .. } if armed && *result > 0 => writes += 1,
             Ev::Fail { .. } if armed => {
                 if !fired {
@@ -240,6 +302,7 @@ pub fn run_fault(case: &C11Case, dir: &Path) -> Result<FaultRun, Failure> {
                 }
                 fired = true;
             }
+            Ev::Fail { .. } if armed2 => fired2 = true,
             _ => {}
         }
     }
@@ -247,7 +310,7 @@ pub fn run_fault(case: &C11Case, dir: &Path) -> Result<FaultRun, Failure> {
         fired = report.commit.starts_with("err");
         writes_before = writes;
     }
-    Ok(FaultRun { report, fired, writes_before_fault: writes_before })
+    Ok(FaultRun { report, fired, writes_before_fault: writes_before, fired2 })
 }
 
 /// Dry run: kinds of the counted calls of the target commit (1 write, 2 sync, 11 lseek), write lengths.
@@ -325,7 +388,7 @@ fn shard(ctx: &ShardCtx, known: &Known) -> ShardOut {
         let seed = mix(ctx.shard_seed("c11"), hi as u64);
         let (history, targets) = fault_history(seed);
         for target in targets {
-            let base = C11Case { history: history.clone(), target, fault: Fault::None };
+            let base = C11Case { history: history.clone(), target, fault: Fault::None, second: None };
             let calls = match count_calls(&base, &ctx.scratch) {
                 Ok(c) => c,
                 Err(f) => {
@@ -348,9 +411,34 @@ fn shard(ctx: &ShardCtx, known: &Known) -> ShardOut {
                 }
             }
             faults.push(Fault::Fsize);
-            // sampled pairs are approximated by a second fault never firing in the same commit: single faults only here
-            for fault in faults {
-                let case = C11Case { history: history.clone(), target, fault: fault.clone() };
+            // pairs (sampled): a first fault in this commit and a second one in a later commit on
+            // the same handle (the commit right after it, or one further on); the number of calls
+            // of the later commit is taken from a fault-free dry run, so some second faults do not
+            // fire (classified)
+            let mut cases: Vec<(Fault, Option<(usize, Fault)>)> = faults.iter().map(|f| (f.clone(), None)).collect();
+            let npairs = ctx.tier.pick(24, 160);
+            let mut prng = Rng(mix(seed, 0x9a1f + target as u64));
+            let later: Vec<usize> = (target + 1..history.txs.len()).filter(|t| history.txs[*t].kind == TxKind::Commit).take(3).collect();
+            let mut later_calls: Vec<(usize, Vec<(u32, usize)>)> = Vec::new();
+            for t2 in &later {
+                if let Ok(c) = count_calls(&C11Case { history: history.clone(), target: *t2, fault: Fault::None, second: None }, &ctx.scratch) {
+                    if !c.is_empty() {
+                        later_calls.push((*t2, c));
+                    }
+                }
+            }
+            if !later_calls.is_empty() && !faults.is_empty() {
+                for _ in 0..npairs {
+                    let f1 = faults[prng.below(faults.len() as u64) as usize].clone();
+                    let (t2, c2) = &later_calls[prng.below(later_calls.len() as u64) as usize];
+                    let i2 = prng.below(c2.len() as u64) as usize;
+                    let short = if c2[i2].0 == 1 && c2[i2].1 > 512 && prng.chance(1, 4) { Some(512u32) } else { None };
+                    let f2 = Fault::Nth { n: (i2 + 1) as u32, errno: if prng.chance(1, 2) { libc::EIO } else { libc::ENOSPC }, short };
+                    cases.push((f1, Some((*t2, f2))));
+                }
+            }
+            for (fault, second) in cases {
+                let case = C11Case { history: history.clone(), target, fault: fault.clone(), second: second.clone() };
                 note_current(ctx, "c11", &case);
                 let (verdict, classes) = match run_fault(&case, &ctx.scratch) {
                     Err(f) => (CaseVerdict { failure: Some(f), nontrivial: false, classes: vec![] }, vec![]),
@@ -372,6 +460,16 @@ fn shard(ctx: &ShardCtx, known: &Known) -> ShardOut {
                         let mut failure = fr.report.failure.clone();
                         if failure.is_none() && fr.fired && fr.report.commit == "ok" && !matches!(fault, Fault::Nth { short: Some(_), .. }) {
                             failure = Some(Failure::new("error_swallowed", format!("fault {:?} fired but commit returned Ok", fault)));
+                        }
+                        if let Some((_, f2)) = &second {
+                            if fr.fired2 {
+                                classes.push(format!("pair: second fault fired in a later commit (result {}, observed {} state)", if fr.report.commit2.starts_with("err") { "Err" } else { fr.report.commit2.as_str() }, fr.report.observed2));
+                                if failure.is_none() && fr.report.commit2 == "ok" && !matches!(f2, Fault::Nth { short: Some(_), .. }) {
+                                    failure = Some(Failure::new("error_swallowed", format!("second fault {:?} fired but commit returned Ok", f2)));
+                                }
+                            } else {
+                                classes.push("pair: second fault did not fire".into());
+                            }
                         }
                         (CaseVerdict { failure, nontrivial: fr.fired && fr.writes_before_fault >= 1, classes: classes.clone() }, classes)
                     }
